@@ -71,6 +71,8 @@ struct Agg {
     nontrivial: std::collections::BTreeSet<u64>,
     /// fingerprint -> (count, best witness)
     findings: BTreeMap<String, (usize, Value)>,
+    /// fingerprint -> entry points it was reached from
+    reached_from: BTreeMap<String, std::collections::BTreeSet<String>>,
     samples: Vec<String>,
     hangs_unconfirmed: usize,
     consistency_failures: Vec<Value>,
@@ -110,13 +112,19 @@ impl Agg {
                 self.panic_items += 1;
             }
             for p in ps {
-                let fp = format!("{} {}", p["loc"].as_str().unwrap_or(""), p["class"].as_str().unwrap_or(""));
+                // one finding per panic site (file:line); the message class of the witness is kept
+                let fp = format!("panic {}", p["loc"].as_str().unwrap_or(""));
                 let mut w = p["witness"].clone();
                 if !w.is_null() {
-                    w["panic"] = json!({"at": p["at"], "loc": p["loc"], "msg": p["msg"]});
+                    w["panic"] = json!({"at": p["at"], "loc": p["loc"], "msg": p["msg"], "class": p["class"]});
                     w["item"] = e["name"].clone();
                 }
-                self.add_finding(fp, w);
+                let at = p["at"].as_str().unwrap_or("").to_string();
+                self.add_finding(fp.clone(), w);
+                let set = self.reached_from.entry(fp).or_default();
+                if set.len() < 12 {
+                    set.insert(at);
+                }
             }
         }
         if let Some(c) = e.get("inconsistent") {
@@ -178,9 +186,10 @@ fn parent_main(corpus_dir: &str, out_dir: &str, tier: &str) {
                     let mut child = Command::new(exe)
                         .arg("worker")
                         .arg(&jf)
+                        .env("RUST_BACKTRACE", "1")
                         .stdin(Stdio::null())
                         .stdout(Stdio::piped())
-                        .stderr(Stdio::null())
+                        .stderr(std::fs::File::create(format!("{jobs_dir}/job_{id}.err")).map(Stdio::from).unwrap_or_else(|_| Stdio::null()))
                         .spawn()
                         .expect("spawn worker");
                     let stdout = child.stdout.take().unwrap();
@@ -259,10 +268,36 @@ fn parent_main(corpus_dir: &str, out_dir: &str, tier: &str) {
                         }
                     } else {
                         // the child died (abort / stack overflow / allocation cap) on the item in flight
+                        let err = std::fs::read_to_string(format!("{jobs_dir}/job_{id}.err")).unwrap_or_default();
+                        let first = err.lines().find(|l| !l.trim().is_empty()).unwrap_or("").to_string();
+                        let cause = if first.contains("memory allocation of") {
+                            "allocation beyond the address-space cap".to_string()
+                        } else if first.contains("overflowed its stack") || err.contains("stack overflow") {
+                            "stack overflow".to_string()
+                        } else {
+                            first.chars().take(120).collect()
+                        };
+                        // the input itself: ask a fresh worker to write it out without running it
+                        let dump = format!("{jobs_dir}/job_{id}.input.json");
+                        let mut dj = job_for_replay.clone();
+                        dj["dump"] = json!(dump);
+                        let djf = format!("{jobs_dir}/job_{id}.dump.json");
+                        let _ = std::fs::write(&djf, serde_json::to_string(&dj).unwrap());
+                        let _ = Command::new(std::env::current_exe().unwrap())
+                            .arg("worker").arg(&djf).stdout(Stdio::null()).stderr(Stdio::null()).status();
+                        let input: Value = std::fs::read_to_string(&dump)
+                            .ok().and_then(|t| serde_json::from_str(&t).ok()).unwrap_or(Value::Null);
+                        // first frame inside /repo of the abort's backtrace identifies the site
+                        let site = err
+                            .lines()
+                            .filter_map(|l| l.trim().strip_prefix("at /repo/"))
+                            .next()
+                            .map(|l| l.rsplitn(2, ':').last().unwrap_or(l).to_string())
+                            .unwrap_or_default();
                         agg.lock().unwrap().add_finding(
-                            format!("crash {} {}", js.job["kind"].as_str().unwrap_or(""), status),
-                            json!({"size": 0, "item": name, "job": job_for_replay,
-                                   "what": format!("worker process died: {status}")}),
+                            format!("crash {} [{}] {}", status, cause, site),
+                            json!({"size": 0, "item": name, "job": job_for_replay, "input": input,
+                                   "what": format!("worker process died: {status}: {}", first.chars().take(300).collect::<String>())}),
                         );
                         if !js.confirm && js.job.get("only").is_none() {
                             queue.lock().unwrap().push(JobState { job: js.job.clone(), start: i + 1, confirm: false });
@@ -283,6 +318,9 @@ fn parent_main(corpus_dir: &str, out_dir: &str, tier: &str) {
         }
         f["fingerprint"] = json!(fp);
         f["count"] = json!(count);
+        if let Some(r) = a.reached_from.get(fp) {
+            f["reached_from"] = json!(r);
+        }
         std::fs::write(&path, serde_json::to_string_pretty(&f).unwrap()).unwrap();
         let mut short = f.clone();
         if let Some(o) = short.as_object_mut() {
